@@ -221,10 +221,10 @@ PROPS["C11"] = dict(
 
 PROPS["C08"] = dict(
     level="proof",
-    claim="Partial: (E1, proof for every extent and result index, ranks 2..3, one reduction axis given at compile or run time incl. negative, keepdims on/off) index::reduction_slices designates for result index r exactly [0, extent) on the reduced axis and [r_k, r_k+1) on every other axis, and remove_dims yields NumPy's result shape; (E1, element values symbolic, constant shapes (2,3) (3,2) (3,4) (4,3) (1,3) (3,1), rank-3 shapes (2,3,2) (2,2,3) (3,2,2)) the element of a reduction is the left fold, accumulator first, in increasing index order over exactly the reduction slice - shown with subtract, which is neither commutative nor associative -, with an initial value the fold starts from it, axis None folds the C-order flattening, and accumulate yields the prefix folds; (E2) sum/prod/cumsum/cumprod are the add/multiply reduction resp. accumulation with operands in order, the reduce_/accumulate_/outer_ overload families hand every parameter on, no reduction-composing view drops a parameter, the accumulate axis is normalised",
+    claim="Partial: (E1, proof for every extent and result index, ranks 2..3, one reduction axis given at compile or run time incl. negative, keepdims on/off) index::reduction_slices designates for result index r exactly [0, extent) on the reduced axis and [r_k, r_k+1) on every other axis, and remove_dims yields NumPy's result shape; (E1, element values symbolic, constant shapes (2,3) (3,2) (3,4) (4,3) (1,3) (3,1), rank-3 shapes (2,3,2) (2,2,3) (3,2,2)) the element of a reduction is the left fold, accumulator first, in increasing index order over exactly the reduction slice - shown with subtract, which is neither commutative nor associative -, with an initial value the fold starts from it, axis None folds the C-order flattening, and accumulate yields the prefix folds; (E2) sum/prod/cumsum/cumprod are the add/multiply reduction resp. accumulation with operands in order, the reduce_/accumulate_/outer_ overload families hand every parameter on, no reduction-composing view drops a parameter, the accumulate axis is normalised (c08c_reduce_views, constant and run-time shapes, symbolic integer elements) sum over one axis (positive, negative, compile-time), several axes (run-time list, negative entries, compile-time tuple), keepdims (one axis, several axes, all axes), initial value, all axes; prod, amax, amin (axis, all axes, initial), reduce_subtract (order, initial first, keepdims), reduce_maximum over several axes; cumsum, cumprod, accumulate_subtract: NumPy's shape and the fold of exactly the matching source elements at every index.",
     note=E1_NOTE + " " + E2_NOTE + " Assumes that a (start, stop) slice selects the elements start..stop-1 in order (C05, not decided) and that flatten keeps C order (proved under C03).",
     technique=E1_TECH + " + structural fold-order rule over the reduction views (custom libTooling extractor)",
-    e1=[dict(tu="c08_reduce.cpp"), dict(tu="c08b_fold.cpp")],
+    e1=[dict(tu="c08_reduce.cpp"), dict(tu="c08b_fold.cpp"), dict(tu="c08c_reduce_views.cpp"), dict(tu="c08c_reduce_views_rt.cpp")],
     e2=[dict(rule="R-FOLD"), dict(rule="R-AXISNORM"), dict(rule="R-UFWD.reduce"), dict(rule="R-PARAMUSE")],
     rule=E1_RULE + "; E2: one instance per sum/prod/cumsum/cumprod overload, per reduce_/accumulate_/outer_ overload, per parameter of a reduction-composing view",
     explanation="Which elements enter a fold is an index-level fact (the slices), decided for all values; the order and accumulator position are structural facts of the fold loop.",
